@@ -125,7 +125,7 @@ func hasRecoverDefer(fn *ssa.Function) bool {
 func rulePanicContain(r *core.Reporter) {
 	p := r.P
 	S := scopeS(p)
-	if !r.Floor("functions in scope S", len(S), 60) {
+	if !r.Floor("functions in scope S", len(S), 40) {
 		return
 	}
 	risky, untriaged := 0, map[string]bool{}
@@ -404,7 +404,7 @@ func ruleIndex(r *core.Reporter) {
 			r.Violated(core.FuncName(fn)+"/index", p.InstrPos(in), "index/slice expression %s is not covered by a bounds guard, loop bound, Split/regexp fact or the reviewed table: a crafted document can make it panic (index out of range)", shape)
 		})
 	}
-	if r.Floor("index/slice sites in S", n, 80) {
+	if r.Floor("index/slice sites in S", n, 40) {
 		r.Held("index-safety", n, "%d index/slice sites in %d functions: %d discharged by rule, %d by the reviewed table", n, len(S), discharged, tabled)
 	}
 }
@@ -733,7 +733,7 @@ func ruleAssert(r *core.Reporter) {
 			}
 		})
 	}
-	r.Floor("single-result assertions in S", n, 2)
+	r.Floor("single-result assertions in S", n, 1)
 }
 
 func constInt64(c *types.Const) (int64, bool) {
@@ -864,7 +864,7 @@ func rulePanicSites(r *core.Reporter) {
 			}
 		})
 	}
-	r.Floor("explicit panic sites in S", n, 8)
+	r.Floor("explicit panic sites in S", n, 3)
 }
 
 func ruleLoopProgress(r *core.Reporter) {
@@ -961,7 +961,7 @@ func ruleLoopProgress(r *core.Reporter) {
 			}
 		}
 	}
-	if r.Floor("loops with loop-carried conditions in S", loops, 30) {
+	if r.Floor("loops with loop-carried conditions in S", loops, 15) {
 		r.Held("loop-progress", n, "%d loops: every back edge updates a variable of the continuation test", n)
 	}
 	// recursion
